@@ -130,14 +130,14 @@ func (r *Report) Finish() int {
 		fmt.Printf("HARNESS-ERROR property=%s %s\n", r.Property, r.HarnessErr)
 	}
 	ev := map[string]any{
-		"property_id": r.Property,
-		"tier":        Tier(),
-		"seed":        Seed(),
-		"level":       r.Level,
-		"coverage":    r.Coverage,
-		"assumptions": r.Assumptions,
-		"wall_s":      time.Since(r.start).Seconds(),
-		"violations":  newViol,
+		"property_id":        r.Property,
+		"tier":               Tier(),
+		"seed":               Seed(),
+		"level":              r.Level,
+		"coverage":           r.Coverage,
+		"assumptions":        r.Assumptions,
+		"wall_s":             time.Since(r.start).Seconds(),
+		"violations":         newViol,
 		"known_findings_hit": knownHit,
 	}
 	if r.HarnessErr != "" {
